@@ -944,11 +944,19 @@ func (a av1DepRes) sameResult(b av1DepRes) bool {
 
 // av1DepHist feeds the payloads to ONE AV1Depacketizer and writes `<n> DepObs*`.
 func av1DepHist(c *Case, payloads [][]byte) {
-	c.I.Nat(len(payloads))
+	// the only option of the receiver: SetZeroAllocation (inherited from videoDepacketizer; it must
+	// make no difference to AV1Depacketizer) — drawn per case
+	zero := c.R.Chance(1, 3)
+	c.I.Bool(zero).Nat(len(payloads))
 	for _, p := range payloads {
 		c.I.OBytes(p)
 	}
 	main, twin := &codecs.AV1Depacketizer{}, &codecs.AV1Depacketizer{}
+	if zero {
+		main.SetZeroAllocation(true)
+		twin.SetZeroAllocation(true)
+		c.Tag("zero-allocation")
+	}
 	c.O.Nat(len(payloads))
 	for _, p := range payloads {
 		buf := cloneBytes(p)
@@ -959,7 +967,11 @@ func av1DepHist(c *Case, payloads [][]byte) {
 			t0 = main.IsPartitionTail(false, buf)
 			t1 = main.IsPartitionTail(true, buf)
 		})
-		f := av1DepCall(&codecs.AV1Depacketizer{}, cloneBytes(p))
+		fresh := &codecs.AV1Depacketizer{}
+		if zero {
+			fresh.SetZeroAllocation(true)
+		}
+		f := av1DepCall(fresh, cloneBytes(p))
 		tw := av1DepCall(twin, cloneBytes(p))
 		// the caller's buffer is now overwritten: state that aliases it corrupts later results
 		for i := range buf {
